@@ -81,6 +81,8 @@ def member_accesses(fn_ast, struct_name):
     return out
 
 def run(ast, fns, consts, macros, cf, ob, OBS):
+    compute_key_params(fns)
+    key_hygiene(fns, cf, ob)
     # ---------------------------------------------------------- 1. parsers
     fast, slow = fns.get("parse_transport_fast"), fns.get("parse_transport_slow")
     if not fast or not slow:
@@ -282,3 +284,142 @@ def run(ast, fns, consts, macros, cf, ob, OBS):
         # swapped: dst->sip from src->dip etc.
         sw = re.search(r"dst->sip[^;]*key->dip|\bsip\b[^;]*=\s*[^;]*\bdip\b", src) is not None or ("->dip" in src and "->sip" in src)
         ob("RECORD", "reversed-tuple-complete", fns["copy_reversed_tuples"].get("loc", {}).get("line"), okr and sw, "copy_reversed_tuples swaps addresses and ports and copies l4proto")
+
+
+# ---------------------------------------------------------------- key hygiene
+_W = {"__u8": 1, "u8": 1, "__s8": 1, "char": 1, "unsigned char": 1, "bool": 1, "_Bool": 1, "__u16": 2, "__be16": 2, "__le16": 2, "unsigned short": 2, "short": 2,
+      "__u32": 4, "__be32": 4, "__le32": 4, "int": 4, "unsigned int": 4, "__s32": 4, "__u64": 8, "__be64": 8, "__s64": 8, "unsigned long long": 8, "long long": 8, "unsigned long": 8, "long": 8}
+
+def _leaf_size(t):
+    t = t.replace("const ", "").replace("volatile ", "").strip()
+    m = re.match(r"(.+?)\s*((?:\[\d+\])+)$", t)
+    n = 1
+    if m:
+        t = m.group(1).strip()
+        for d in re.findall(r"\[(\d+)\]", m.group(2)):
+            n *= int(d)
+    if t in _W:
+        return _W[t] * n
+    return None
+
+def padded_records(cf):
+    """records whose member bytes do not cover sizeof (they have padding holes)"""
+    out = {}
+    for name, rec in cf.get("records", {}).items():
+        fs = rec.get("fields", [])
+        cov = [False] * rec.get("size", 0)
+        known = True
+        for i, f in enumerate(fs):
+            agg = i + 1 < len(fs) and fs[i + 1]["depth"] > f["depth"]
+            if agg or not f.get("name"):
+                continue
+            sz = _leaf_size(f.get("type", ""))
+            if sz is None:
+                known = False
+                break
+            for b in range(f["offset"], min(f["offset"] + sz, len(cov))):
+                cov[b] = True
+        if known and cov and not all(cov):
+            out[name] = [i for i, c in enumerate(cov) if not c]
+    return out
+
+def key_hygiene(fns, cf, ob):
+    """every stack object of a padded struct type that is used as a hash-map key is zeroed as a whole
+    (initialiser, memset, or a callee that memsets its parameter) — hash maps compare all bytes of the key,
+    and the control plane's keys have zero padding"""
+    pads = padded_records(cf)
+    MAPF = ("bpf_map_lookup_elem", "bpf_map_update_elem", "bpf_map_delete_elem")
+    def rec_of(qt):
+        m = re.match(r"(?:const\s+)?struct\s+(\w+)\s*\*?$", qt.strip())
+        return m.group(1) if m else None
+    # callee summary: parameter index -> zeroed as a whole by the callee
+    zeroing = {}
+    for nm, f in fns.items():
+        params = [c for c in inner(f) if c.get("kind") == "ParmVarDecl"]
+        pn = {p.get("name"): i for i, p in enumerate(params)}
+        def v(x, nm=nm, pn=pn):
+            if x.get("kind") == "CallExpr":
+                r = render(x).replace(" ", "")
+                m = re.match(r"(?:__builtin_)?memset\((\w+),0,", r)
+                if m and m.group(1) in pn:
+                    zeroing.setdefault(nm, set()).add(pn[m.group(1)])
+        walk_ast(f, v)
+    sites = 0
+    bad = []
+    for nm, f in fns.items():
+        locals_ = {}
+        def dv(x):
+            if x.get("kind") == "VarDecl":
+                r = rec_of(x.get("type", {}).get("qualType", ""))
+                if r in pads and "*" not in x.get("type", {}).get("qualType", ""):
+                    has_init = any(c.get("kind") in ("InitListExpr", "ImplicitValueInitExpr", "CompoundLiteralExpr") for c in inner(x)) or x.get("init") is not None
+                    locals_[x.get("name")] = [r, has_init, x.get("loc", {}).get("line") or x.get("range", {}).get("begin", {}).get("line")]
+        walk_ast(f, dv)
+        if not locals_:
+            continue
+        used_as_key = set()
+        zeroed = set()
+        def cv(x):
+            if x.get("kind") != "CallExpr":
+                return
+            args = inner(x)
+            callee = render(args[0])
+            rs = [render(a).replace(" ", "") for a in args[1:]]
+            if callee in MAPF and len(rs) >= 2:
+                m = re.match(r"\(?&(\w+)\)?$", rs[1].replace("(void*)", "").replace("(constvoid*)", ""))
+                if m and m.group(1) in locals_:
+                    used_as_key.add(m.group(1))
+            if callee in ("memset", "__builtin_memset") and len(rs) >= 2 and rs[1] == "0":
+                m = re.match(r"\(?&(\w+)\)?$", rs[0])
+                if m:
+                    zeroed.add(m.group(1))
+            if callee in zeroing:
+                for i, a in enumerate(rs):
+                    m = re.match(r"\(?&(\w+)\)?$", a)
+                    if m and i in zeroing[callee]:
+                        zeroed.add(m.group(1))
+            # a key handed to a helper that uses its parameter as a map key
+            if callee in key_params:
+                for i, a in enumerate(rs):
+                    m = re.match(r"\(?&(\w+)\)?$", a)
+                    if m and i in key_params[callee] and m.group(1) in locals_:
+                        used_as_key.add(m.group(1))
+        walk_ast(f, cv)
+        for k in sorted(used_as_key):
+            sites += 1
+            rname, has_init, line = locals_[k]
+            if not (has_init or k in zeroed):
+                bad.append("%s:%s `struct %s %s` (padding bytes %s)" % (nm, line, rname, k, pads[rname]))
+    ob("KEY", "padded-map-keys-zeroed", None, not bad and sites >= 2,
+       "every stack object of a struct type with padding that is used as a hash-map key is zeroed as a whole before its members are filled (%d key object(s); padded key types: %s)%s — hash maps compare every byte of the key and the control plane builds its keys with zero padding"
+       % (sites, ", ".join(sorted(pads)), "" if not bad else " — NOT zeroed: " + "; ".join(bad)))
+
+key_params = {}
+
+def compute_key_params(fns):
+    """helper functions that use a pointer parameter directly as a map key: name -> {param index}"""
+    MAPF = ("bpf_map_lookup_elem", "bpf_map_update_elem", "bpf_map_delete_elem")
+    changed = True
+    while changed:
+        changed = False
+        for nm, f in fns.items():
+            params = [c for c in inner(f) if c.get("kind") == "ParmVarDecl"]
+            pn = {p.get("name"): i for i, p in enumerate(params)}
+            def v(x, nm=nm, pn=pn):
+                nonlocal changed
+                if x.get("kind") != "CallExpr":
+                    return
+                args = inner(x)
+                callee = render(args[0])
+                rs = [render(a).replace(" ", "") for a in args[1:]]
+                idxs = []
+                if callee in MAPF and len(rs) >= 2:
+                    idxs = [1]
+                elif callee in key_params:
+                    idxs = list(key_params[callee])
+                for i in idxs:
+                    if i < len(rs) and rs[i] in pn:
+                        if pn[rs[i]] not in key_params.setdefault(nm, set()):
+                            key_params[nm].add(pn[rs[i]])
+                            changed = True
+            walk_ast(f, v)
